@@ -152,21 +152,45 @@ def same(a, b):
     return False
 
 
+def resolve_names(spec, vars_):
+    """Invariants name loop-carried local variables.  A local may be renamed without any change of behaviour: a name the
+    code no longer has is resolved by ROLE - the contract declares the kind of the variable (set / list / dict / array) and
+    the name is re-bound when exactly one local of that kind is not already claimed by another declared name."""
+    from .interp import MSet, SMap
+    kinds = dict(getattr(spec, "kinds", None) or {})
+    for nm in (getattr(spec, "sorts", None) or {}):
+        kinds.setdefault(nm, "list")
+    alias = {}
+    claimed = {nm for nm in kinds if nm in vars_}
+    is_kind = {"set": lambda v: isinstance(v, MSet), "list": lambda v: isinstance(v, MList),
+               "dict": lambda v: isinstance(v, (dict, SMap)), "array": lambda v: type(v).__name__ == "NDArr"}
+    for nm, kd in kinds.items():
+        if nm in vars_:
+            continue
+        cands = [n2 for n2, v in vars_.items() if n2 not in claimed and n2 not in alias.values() and is_kind.get(kd, lambda v: False)(v)]
+        if len(cands) == 1:
+            alias[nm] = cands[0]
+    return alias
+
+
 class LoopState:
     """What an invariant may talk about."""
-    def __init__(self, it, k, n, coll, env_vars, entry_vars, heap, entry_heap, store, entry_store):
+    def __init__(self, it, k, n, coll, env_vars, entry_vars, heap, entry_heap, store, entry_store, alias=None):
         self.it, self.ctx = it, it.ctx
         self.k, self.n, self.coll = k, n, coll
         self.vars, self.entry_vars = env_vars, entry_vars
         self.heap, self.entry_heap = heap, entry_heap
         self.store, self.entry_store = store, entry_store
+        self.alias = alias or {}
 
     def var(self, name):
+        name = name if name in self.vars else self.alias.get(name, name)
         if name not in self.vars:
             raise Unsupported(f"the loop invariant refers to variable {name!r}, which the code no longer has")
         return self.vars[name]
 
     def old(self, name):
+        name = name if name in self.entry_vars else self.alias.get(name, name)
         if name not in self.entry_vars:
             raise Unsupported(f"the loop invariant refers to variable {name!r}, which the code no longer has")
         return self.entry_vars[name]
@@ -255,6 +279,9 @@ def run_symbolic_loop(it, coll, bind_target, run_body, body_stmts, env, f, ordin
             entry_vars.pop(t, None)
             env.vars[t] = Poison()
         excl = tuple(getattr(spec, "sorts", {}) or ()) if spec is not None else ()
+        if spec is not None:
+            _al = resolve_names(spec, entry_vars)
+            excl = tuple(_al.get(nm, nm) for nm in excl)
         accs = find_accumulators(entry, entry_vars, results, body_stmts, excl)
         modified = detect_modified(ctx, entry, entry_vars, results, accs)
         if modified["any"] and spec is None:
@@ -621,8 +648,11 @@ def stateful_loop(it, coll, k, n, spec, modified, body_once, env, entry, entry_v
         raise Unsupported("print inside a stateful symbolic loop")
     tag = f"{qn}#loop{ordinal}"
 
+    alias = resolve_names(spec, entry_vars)
+    sorts_by_actual = {alias.get(nm, nm): srt for nm, srt in (getattr(spec, "sorts", None) or {}).items()}
+
     def state(kterm, vars_, heap, store):
-        return LoopState(it, kterm, n, coll, vars_, entry_vars, heap, heap0, store, store0)
+        return LoopState(it, kterm, n, coll, vars_, entry_vars, heap, heap0, store, store0, alias)
 
     # inv-init: invariant holds on entry with k = 0
     prove_parts(ctx, f"inv-init:{tag}", spec.inv(state(z3.IntVal(0), dict(env.vars), dict(ctx.heap), ctx.store)), "inv-init")
@@ -643,8 +673,8 @@ def stateful_loop(it, coll, k, n, spec, modified, body_once, env, entry, entry_v
             cur = store0[sid][fld]
             srt = None
             for nm, val in entry_vars.items():
-                if getattr(val, "id", None) == sid and nm in getattr(spec, "sorts", {}):
-                    srt = spec.sorts[nm]
+                if getattr(val, "id", None) == sid and nm in sorts_by_actual:
+                    srt = sorts_by_actual[nm]
             if srt is not None and isinstance(cur, Seq):
                 cur = Seq(cur.len, None, srt)       # element sort declared by the contract
             hs[key] = havoc_like(ctx, cur, f"s_{fld}{sid[1]}")
